@@ -51,7 +51,22 @@ def bernoulli_sites(rep: Report, fi: FuncInfo, prob_attr: str) -> int:
         u_left = is_uniform(l, rn)
         other = r if u_left else l
         good_op = isinstance(op, ast.Lt) if u_left else isinstance(op, ast.Gt)
-        if attr_chain(other) != prob_attr:
+        if isinstance(other, ast.Name):
+            # a local naming the probability (`p = self.error_prob`): its only definition decides
+            ds_ = [s_.value for s_ in ast.walk(fi.node) if isinstance(s_, ast.Assign) and len(s_.targets) == 1 and isinstance(s_.targets[0], ast.Name) and s_.targets[0].id == other.id]
+            if len(ds_) == 1 and other.id not in fi.params:
+                other = ds_[0]
+                while isinstance(other, ast.Call) and isinstance(other.func, ast.Attribute) and other.func.attr in ("to", "float", "double", "item") and not (call_name(other) or "").startswith("torch."):
+                    other = other.func.value
+        mentions_p = any(isinstance(a_, ast.Attribute) and attr_chain(a_) == prob_attr for a_ in ast.walk(other))
+        compl = isinstance(other, ast.BinOp) and isinstance(other.op, ast.Sub) and isinstance(other.left, ast.Constant) and other.left.value in (1, 1.0) and attr_chain(other.right) == prob_attr
+        if compl and (isinstance(op, ast.GtE) if u_left else isinstance(op, ast.LtE)):
+            rep.ok("BERNOULLI", fi, construct, "U >= 1 - p: P(event) = p exactly for U in [0,1): never at p = 0, always at p = 1", node=c)
+        elif attr_chain(other) != prob_attr and mentions_p:
+            rep.undecided("BERNOULLI", fi, construct, f"the uniform draw is compared with `{unparse(other)[:60]}`, an expression of the configured probability that is not recognised", node=c)
+        elif attr_chain(other) != prob_attr and isinstance(other, ast.Name):
+            rep.undecided("BERNOULLI", fi, construct, f"the uniform draw is compared with the local `{other.id}` whose definition is not unique", node=c)
+        elif attr_chain(other) != prob_attr:
             rep.violation("BERNOULLI", fi, construct, f"the uniform draw is compared with `{unparse(other)}` instead of the configured probability `{prob_attr}`", node=c)
         elif good_op:
             rep.ok("BERNOULLI", fi, construct, "P(event) = p exactly: U in [0,1) and strict `<`: never at p = 0, always at p = 1", node=c)
@@ -441,7 +456,7 @@ def digital_history_evaluated(repo: Repo, cname: str, prob_param: str, kind: str
                     return None
         return attrs
 
-    bad, words = [], 0
+    bad, words = {"lt": [], "ge": []}, 0
     scope = coverage_scope()
     scope.__enter__()
     try:
@@ -467,34 +482,38 @@ def digital_history_evaluated(repo: Repo, cname: str, prob_param: str, kind: str
                         if len(set(mode)) > 1 or (p > 0 and not mode and kind in ("bec", "bsc")):
                             return None, "draws requested in more than one layout", 0
                         flat_bits = [b for r in bits for b in r]
-                        if kind == "z":
-                            if mode and mode[0] == "flat":
-                                ones = [i for i, b in enumerate(flat_bits) if b == 1]
-                                hit = {i: flat_draws[j] < p for j, i in enumerate(ones)}
-                            else:
-                                hit = {i: flat_draws[i] < p for i in range(8)}
-                            want_bits = [0 if (b == 1 and hit.get(i, False)) else b for i, b in enumerate(flat_bits)]
-                            want = [(2 * b - 1 if bipolar else b) * 1.0 for b in want_bits]
-                        elif kind == "bsc":
-                            if not mode or mode[0] == "flat":
-                                return None, "flip draws not taken for the whole block", 0
-                            want = [((b ^ 1) if flat_draws[i] < p else b) for i, b in enumerate(flat_bits)]
-                            want = [(2 * b - 1 if bipolar else b) * 1.0 for b in want]
-                        else:
-                            if mode and mode[0] == "flat":
-                                return None, "erasure draws taken for a subset of the positions", 0
-                            want = [sym if flat_draws[i] < p else (2 * b - 1 if bipolar else b) * 1.0 for i, b in enumerate(flat_bits)]
                         gotf = [float(v) for r in got for v in r]
                         hist.append(("-1/+1" if bipolar else "{0,1}"))
                         words += 1
-                        if gotf != want or any(v != v for v in gotf):
-                            bad.append((f"erasure symbol {sym}, " if kind == "bec" else "") + f"p = {p}, blocks sent on one channel object: {' then '.join(hist)}; block {len(hist)} x = {x[0]}... gives {gotf[:4]}..., expected {want[:4]}...")
+                        if kind in ("bec", "bsc") and mode and mode[0] == "flat":
+                            return None, "draws taken for a subset of the positions", 0
+                        if kind == "bsc" and not mode:
+                            return None, "flip draws not taken for the whole block", 0
+                        # the event "happens with probability p" may be spelt U < p or U >= 1 - p (both exact for U in [0, 1))
+                        for conv, ev in (("lt", lambda d: d < p), ("ge", lambda d: d >= 1 - p)):
+                            if kind == "z":
+                                if mode and mode[0] == "flat":
+                                    ones = [i for i, b in enumerate(flat_bits) if b == 1]
+                                    hit = {i: ev(flat_draws[j]) for j, i in enumerate(ones)}
+                                else:
+                                    hit = {i: ev(flat_draws[i]) for i in range(8)}
+                                want_bits = [0 if (b == 1 and hit.get(i, False)) else b for i, b in enumerate(flat_bits)]
+                                want = [(2 * b - 1 if bipolar else b) * 1.0 for b in want_bits]
+                            elif kind == "bsc":
+                                want = [((b ^ 1) if ev(flat_draws[i]) else b) for i, b in enumerate(flat_bits)]
+                                want = [(2 * b - 1 if bipolar else b) * 1.0 for b in want]
+                            else:
+                                want = [sym if ev(flat_draws[i]) else (2 * b - 1 if bipolar else b) * 1.0 for i, b in enumerate(flat_bits)]
+                            if gotf != want or any(v != v for v in gotf):
+                                bad[conv].append((f"erasure symbol {sym}, " if kind == "bec" else "") + f"p = {p}, blocks sent on one channel object: {' then '.join(hist)}; block {len(hist)} x = {x[0]}... gives {gotf[:4]}..., expected {want[:4]}...")
+                        if bad["lt"] and bad["ge"]:
                             break
     finally:
         scope.__exit__()
     gap = scope.note([fi.node] + [f.node for nm, f in ci.methods.items() if f"self.{nm}" in funcs and any(isinstance(c, ast.Call) and attr_chain(c.func) == f"self.{nm}" for c in ast.walk(fi.node))])
-    if bad:
-        return VIOLATION, {"z": "Z-channel", "bec": "erasure channel", "bsc": "symmetric channel"}[kind] + " output is not the block with exactly the drawn symbols replaced, in the block's own alphabet: " + "; ".join(bad[:2]), words
+    if bad["lt"] and bad["ge"]:
+        first = bad["lt"] if len(bad["lt"]) <= len(bad["ge"]) else bad["ge"]
+        return VIOLATION, {"z": "Z-channel", "bec": "erasure channel", "bsc": "symmetric channel"}[kind] + " output is not the block with exactly the drawn symbols replaced, in the block's own alphabet: " + "; ".join(first[:2]), words
     if gap:
         return None, f"branches never reached by the samples: {gap}", 0
     return OK, f"{words} blocks in two-block histories ({{0,1}} / -1,+1 in every order, p = 0, 0.5, 1): " + ("a 1 becomes 0 exactly where its draw is below p, a 0 never changes" if kind == "z" else "a symbol is exchanged for the other one exactly where its draw is below p" if kind == "bsc" else "a symbol becomes the erasure symbol exactly where its draw is below p, the others are unchanged") + "; the output stays in the block's own alphabet whatever was sent before", words
